@@ -158,6 +158,28 @@ def deriv_work(payload):
         v1 = float(fcn(list(xs)))
         if not relclose(v1, y, 1e-9)[0]:
             res.violation("stale:value|%s" % model, "%s/%s: fcn(x) after fcn at another point = %r, before %r" % (model, scen, v1, y), case)
+        # the free-parameter list reordered at equal length between two derivative calls on the same object:
+        # fix and free one parameter (the freed one goes to the end of the list)
+        if sc["gauss"] and nv >= 2:
+            vm = fcn.vm
+            moved = [n for n in names if n in sc["gauss"]][0] if any(n in sc["gauss"] for n in names[:-1]) else names[0]
+            vm.set_fix(moved)
+            vm.set_fix(moved, unfix=True)
+            names2 = list(vm.trainable_vars)
+            case = dict(case0, batch=batch, reordered=moved)
+            res.case(nontrivial_key=(model, scen, point, groups, "reordered"), outcome="reordered")
+            if sorted(names2) == sorted(names) and names2 != names:
+                perm = [names.index(n) for n in names2]
+                x2o = list(xs[perm])
+                v, g = fcn.nll_grad(x2o)
+                g = np.array([float(i) for i in g])
+                if not relclose(v, y, 1e-9)[0] or not relclose(g, g_ref[perm], 1e-8)[0]:
+                    k = int(np.argmax(np.abs(g - g_ref[perm])))
+                    res.violation("reordered:gradient|%s" % model, "%s/%s: after fixing and freeing %s (free list reordered) d NLL/d %s = %r, derivative of the reported NLL = %r" % (model, scen, moved, names2[k], float(g[k]), float(g_ref[perm][k])), case)
+                v, g, h = fcn.nll_grad_hessian(x2o)
+                h = np.asarray(h, dtype=float)
+                if not relclose(h, H_ref[np.ix_(perm, perm)], 1e-7, hs)[0]:
+                    res.violation("reordered:hessian|%s" % model, "%s/%s: after fixing and freeing %s the Hessian is not the second derivative of the reported NLL in the new parameter order" % (model, scen, moved), case)
     except Exception as e:
         res.violation("stale:exception|%s" % model, "%s/%s: %s: %s" % (model, scen, type(e).__name__, str(e)[:200]), dict(case0, after_other_point=True))
     res.sample({"part": "deriv", "model": model, "scenario": scen, "free_parameters": names, "batches": payload["batches"]}, limit=1)
